@@ -2,7 +2,8 @@
 
 `Vec<T>` of single-account sets (T from the modifier family) decoded over n accounts and validated with each of the four
 argument forms of account_set/impls/vec.rs: `()`, `(TA,)`, `Vec<TA>` with k arguments (k < n is an error, surplus
-arguments are ignored), `[TA; k]` (k != n is an error).  Model: coq/Account/Validate.v validate_vec (run_c09v),
+arguments are ignored), `[TA; k]` (k != n is an error); the fixed-size array `[T; n]` (impls/array.rs: `()`, `(TA,)`,
+`[TA; n]`) and `Rest<T>` (rest.rs) - forms 4..7, which have no argument-count condition.  Model: coq/Account/Validate.v validate_vec (run_c09v),
 theorems C09_vec_accepts_iff_every_account / C09_vec_no_account_skipped."""
 from lib.props import c09 as A
 
@@ -17,7 +18,7 @@ E_INVALID_ARGUMENT = 2 << 32
 VSIGS = [[], ["S"], ["M"], ["S", "M"], ["M", "S"], ["s1", "m0"], ["SA"], ["SA", "M"], ["SA", "M", "S"], ["S", "b"]]
 RULE = ("stage 'vec': Vec<T> for %d element types (plain, Signer, Mut, both orders, MaybeSigner/MaybeMut, SystemAccount "
         "stacks, Box) x 0..5 accounts whose flags / owner are right except (at most) one account at every position x the "
-        "four validate-argument forms, k in {n-2 .. n+2}; accepted iff the form fits n and EVERY account passes every layer, "
+        "four validate-argument forms of Vec (k in {n-2 .. n+2}), the three of the fixed-size array [T; n] and Rest<T>; accepted iff the form fits n and EVERY account passes every layer, "
         "the error is the first failing account's" % len(VSIGS))
 
 
@@ -49,8 +50,8 @@ def gen_cases(rng, tier):
                         else:
                             sg, wr, ow = True, True, good_owner
                         accts.append((key, ow, sg, wr))
-                    for form in (0, 1, 2, 3):
-                        ks = [0] if form in (0, 1) else sorted({max(0, n - 2), max(0, n - 1), n, n + 1, min(6, n + 2)})
+                    for form in (0, 1, 2, 3, 4, 5, 6, 7):
+                        ks = [0] if form not in (2, 3) else sorted({max(0, n - 2), max(0, n - 1), n, n + 1, min(6, n + 2)})
                         for k in ks:
                             if form == 3 and k > 6:
                                 continue
@@ -74,7 +75,8 @@ def _decode(c):
 
 def describe(c):
     form, k, accts, layers = _decode(c)
-    return {"validate_argument_form": ["()", "(TA,)", "Vec<TA> with k arguments", "[TA; k]"][form], "k": k,
+    return {"validate_argument_form": ["Vec<T>: ()", "Vec<T>: (TA,)", "Vec<T>: Vec<TA> with k arguments", "Vec<T>: [TA; k]", "[T; n]: ()", "[T; n]: (TA,)",
+                                       "[T; n]: [TA; n]", "Rest<T>: ()"][form], "k": k,
             "accounts": [{"key": a[0][:2], "owner": a[1][:2], "is_signer": bool(a[2]), "is_writable": bool(a[3])} for a in accts],
             "checks_in_order": [[A.LN[l[0]]] + list(l[1:]) for l in layers]}
 
